@@ -27,6 +27,7 @@ package main
 import (
 	"fmt"
 	"regexp"
+	"runtime"
 	"sort"
 	"strconv"
 	"strings"
@@ -66,14 +67,6 @@ func flagStr(f uint8) string {
 		return "-"
 	}
 	return b.String()
-}
-
-func flagBit(c byte) uint8 {
-	i := strings.IndexByte(flagChars, c)
-	if i < 0 {
-		return 0
-	}
-	return 1 << i
 }
 
 // ---------------------------------------------------------------------------------------------------------
@@ -574,10 +567,10 @@ func canonStr(n *node) string {
 // extended mode on the pattern text
 
 type stripInfo struct {
-	xUsed      bool // extended mode removed something
-	comment    bool // a comment was removed
-	commentHas string
-	wsRemoved  bool
+	xUsed               bool // extended mode removed something
+	comment             bool // a comment was removed
+	commentHas          string
+	wsRemoved           bool
 	unterminatedComment bool
 }
 
@@ -781,10 +774,10 @@ func firstDiff(a, b *bitmap) int {
 // the two routes
 
 type refResult struct {
-	ok      bool
-	why     string // when !ok
-	bm      bitmap
-	info    stripInfo
+	ok       bool
+	why      string // when !ok
+	bm       bitmap
+	info     stripInfo
 	stripped string
 }
 
@@ -1050,24 +1043,86 @@ func (e *evaluator) classify(text string, fl uint8) (sigs []string, minFl uint8)
 			s2, _ := e.classify(r.stripped, minFl&^fX)
 			return s2, minFl
 		}
-		where := "top-level x"
-		if minFl&fX == 0 {
-			where = "scoped (?x: )"
-		}
 		what := "whitespace"
 		if r.info.comment {
 			what = "comment"
-			for _, c := range []string{"|", "(", ")"} {
-				if strings.Contains(r.info.commentHas, c) {
-					what += " containing " + c
-					break
-				}
+			switch {
+			case strings.Contains(r.info.commentHas, "|"):
+				what += " containing |"
+			case strings.ContainsAny(r.info.commentHas, "()"):
+				what += " containing a parenthesis"
 			}
 		}
-		return []string{fmt.Sprintf("extended mode (%s): %s changes the meaning", where, what)}, minFl
+		return []string{fmt.Sprintf("extended mode: %s changes the meaning", what)}, minFl
 	}
-	// 4. anything else: the flags involved and the most specific construct of the pattern
-	return []string{"mismatch flags=" + flagStr(minFl) + " construct=" + topConstruct(text)}, minFl
+	// 4. anything else: simplify the pattern while it keeps mismatching (every leaf that can be replaced by `a`,
+	//    every scoped flag group that can lose its flags), then name the most specific construct that is left
+	red := e.reduce(text, minFl)
+	return []string{"mismatch flags=" + flagStr(minFl) + " construct=" + topConstruct(red)}, minFl
+}
+
+// tokens splits a pattern text into leaves (literal characters, escapes, classes, . ^ $), group headers and
+// other structural characters.
+func tokens(text string) (toks []string, leaf []bool) {
+	rs := []rune(text)
+	for i := 0; i < len(rs); {
+		j := i + 1
+		isLeaf := true
+		switch rs[i] {
+		case '\\':
+			j = i + 2
+		case '[':
+			for j < len(rs) && rs[j] != ']' {
+				if rs[j] == '\\' {
+					j++
+				}
+				j++
+			}
+			j++
+		case '(':
+			isLeaf = false
+			if j < len(rs) && rs[j] == '?' {
+				for j < len(rs) && rs[j] != ':' && rs[j] != ')' {
+					j++
+				}
+				j++
+			}
+		case '{':
+			isLeaf = false
+			for j < len(rs) && rs[j] != '}' {
+				j++
+			}
+			j++
+		case ')', '|', '*', '+', '?':
+			isLeaf = false
+		}
+		if j > len(rs) {
+			j = len(rs)
+		}
+		toks = append(toks, string(rs[i:j]))
+		leaf = append(leaf, isLeaf)
+		i = j
+	}
+	return
+}
+
+func (e *evaluator) reduce(text string, fl uint8) string {
+	toks, leaf := tokens(text)
+	for i := range toks {
+		old := toks[i]
+		switch {
+		case leaf[i] && old != "a":
+			toks[i] = "a"
+		case strings.HasPrefix(old, "(?") && old != "(?:":
+			toks[i] = "(?:"
+		default:
+			continue
+		}
+		if !e.mismatch(strings.Join(toks, ""), fl) {
+			toks[i] = old
+		}
+	}
+	return strings.Join(toks, "")
 }
 
 // topConstruct names the most specific construct present in the pattern (coarse on purpose: one defect, one name).
@@ -1113,7 +1168,7 @@ func topConstruct(text string) string {
 				add("[...]", 1)
 			}
 		case '(':
-			if i+1 < len(rs) && rs[i+1] == '?' {
+			if i+2 < len(rs) && rs[i+1] == '?' && rs[i+2] != ':' {
 				add("scoped flag group", 6)
 			}
 		case '|':
@@ -1245,13 +1300,13 @@ func (e *evaluator) compare(r *engine.R, family, text string, fl uint8) {
 // ---------------------------------------------------------------------------------------------------------
 // flag sets
 
-func flagSets(thorough bool) []uint8 {
-	if thorough {
-		var all []uint8
+func flagSets(all bool) []uint8 {
+	if all {
+		var out []uint8
 		for f := 0; f < 64; f++ {
-			all = append(all, uint8(f))
+			out = append(out, uint8(f))
 		}
-		return all
+		return out
 	}
 	return []uint8{0, fI, fM, fS, fU, fX, fA, fI | fX, fM | fX, fS | fX, fA | fX, fI | fA, fM | fS, fI | fX | fA, fI | fM | fS | fU, 63}
 }
@@ -1287,14 +1342,14 @@ func classPatterns() []string {
 
 var scopedFlagSpecs = []string{"i", "m", "s", "U", "x", "a", "-i", "-m", "-s", "-U", "-x", "-a", "ix", "i-x", "x-i", "ms", "a-i", "imsUxa", "-imsUxa", "xa"}
 
-// scopedPatterns: L (?G: M ) R for every flag spec G, M a tree of at most mSize nodes.
-func scopedPatterns(mSize int) []string {
-	ms := generate(mSize)
-	ls := []string{"", "a", ".", " ", "^"}
-	rs := []string{"", "a", ".", " ", "$", "\\d"}
+// scopedPatterns: L (?G: M ) R for every flag spec G and every tree M of exactly mSize nodes.
+func scopedPatterns(mSize int, ls, rs []string) []string {
 	var out []string
 	for _, g := range scopedFlagSpecs {
-		for _, m := range ms {
+		for _, m := range generate(mSize) {
+			if m.size != mSize {
+				continue
+			}
 			for _, l := range ls {
 				for _, rr := range rs {
 					out = append(out, l+"(?"+g+":"+m.text+")"+rr)
@@ -1335,33 +1390,43 @@ func chunked(c *engine.Ctx, prefix string, n, size int, f func(r *engine.R, lo, 
 	}
 }
 
+type job struct {
+	text string
+	tree *node // generator tree (trees family only)
+	fls  []uint8
+}
+
 func run(c *engine.Ctx) {
 	max := 4
 	if c.Thorough {
 		max = 5
 	}
-	fls := flagSets(c.Thorough)
+	few, all := flagSets(false), flagSets(true)
+	// Which flag sets a pattern meets: quick: the 16 chosen sets everywhere; thorough: all 64, except that trees of
+	// 5 nodes and scoped groups around 2-node trees meet the 16 chosen sets (the space would otherwise not fit the budget).
+	wide := func(small bool) []uint8 {
+		if c.Thorough && small {
+			return all
+		}
+		return few
+	}
 	pats := generate(max)
-	// distinct texts only (different trees can print to the same text, e.g. concatenations)
+	var trees []job
 	{
+		// distinct texts only (different trees can print to the same text, e.g. concatenations)
 		seen := make(map[string]bool, len(pats))
-		out := pats[:0]
 		for _, p := range pats {
 			if !seen[p.text] {
 				seen[p.text] = true
-				out = append(out, p)
+				trees = append(trees, job{p.text, p.tree, wide(p.size <= 4)})
 			}
 		}
-		pats = out
 	}
 	chunk := 24
-	if c.Thorough {
-		chunk = 48
-	}
 	// family A: the tree enumeration
-	chunked(c, "trees", len(pats), chunk, func(r *engine.R, lo, hi int) {
+	chunked(c, "trees", len(trees), chunk, func(r *engine.R, lo, hi int) {
 		e := newEvaluator()
-		for _, p := range pats[lo:hi] {
+		for _, p := range trees[lo:hi] {
 			// the parser must read the printed tree back (no extended mode involved)
 			if !strings.Contains(p.text, "(?x") {
 				func() {
@@ -1382,37 +1447,42 @@ func run(c *engine.Ctx) {
 					}
 				}()
 			}
-			for _, fl := range fls {
+			for _, fl := range p.fls {
 				e.compare(r, "pattern", p.text, fl)
 			}
 		}
-		r.Sample(fmt.Sprintf("pattern %s x %d flag sets x %d subjects", esc(pats[hi-1].text), len(fls), len(subjects)))
+		r.Sample(fmt.Sprintf("pattern %s x %d flag sets x %d subjects", esc(trees[hi-1].text), len(trees[hi-1].fls), len(subjects)))
 	})
 	// family B: scoped flag groups
-	mSize := 1
-	if c.Thorough {
-		mSize = 2
+	var sp []job
+	for _, t := range scopedPatterns(1, []string{"", "a", ".", " ", "^"}, []string{"", "a", ".", " ", "$", "\\d"}) {
+		sp = append(sp, job{t, nil, wide(true)})
 	}
-	sp := scopedPatterns(mSize)
+	if c.Thorough {
+		for _, t := range scopedPatterns(2, []string{"", "a", " "}, []string{"", "a", "$"}) {
+			sp = append(sp, job{t, nil, few})
+		}
+	}
 	chunked(c, "scoped", len(sp), chunk, func(r *engine.R, lo, hi int) {
 		e := newEvaluator()
-		for _, t := range sp[lo:hi] {
-			for _, fl := range fls {
-				e.compare(r, "scoped-flags", t, fl)
+		for _, p := range sp[lo:hi] {
+			for _, fl := range p.fls {
+				e.compare(r, "scoped-flags", p.text, fl)
 			}
 		}
-		r.Sample(fmt.Sprintf("pattern %s x %d flag sets", esc(sp[hi-1]), len(fls)))
+		r.Sample(fmt.Sprintf("pattern %s x %d flag sets", esc(sp[hi-1].text), len(sp[hi-1].fls)))
 	})
 	// family C: character classes with class escapes
 	cp := classPatterns()
+	cfl := wide(true)
 	chunked(c, "classes", len(cp), chunk, func(r *engine.R, lo, hi int) {
 		e := newEvaluator()
 		for _, t := range cp[lo:hi] {
-			for _, fl := range fls {
+			for _, fl := range cfl {
 				e.compare(r, "class", t, fl)
 			}
 		}
-		r.Sample(fmt.Sprintf("pattern %s x %d flag sets", esc(cp[hi-1]), len(fls)))
+		r.Sample(fmt.Sprintf("pattern %s x %d flag sets", esc(cp[hi-1]), len(cfl)))
 	})
 	// family D: composition
 	ops := compositionOperands()
@@ -1423,6 +1493,7 @@ func run(c *engine.Ctx) {
 				compareConcat(r, e, l, rr)
 			}
 		}
+		r.Sample(fmt.Sprintf("%s + each of %d operands", lit(ops[lo]), len(ops)))
 	})
 	chunked(c, "repeat", len(ops), 16, func(r *engine.R, lo, hi int) {
 		e := newEvaluator()
@@ -1484,35 +1555,11 @@ func composeVerdict(r *engine.R, e *evaluator, op, expr string, want *node, got 
 		}
 	}
 	if len(sigs) == 0 {
-		var f []string
-		for _, o := range operands {
-			f = append(f, operandFeature(o))
-		}
-		sigs = []string{op + ": composition changes the meaning (" + strings.Join(f, " / ") + ")"}
+		sigs = []string{op + ": composing correctly translated operands changes the meaning"}
 	}
 	for _, sg := range sigs {
 		r.Violation(sg, detail, expr)
 	}
-}
-
-func operandFeature(o operand) string {
-	var f []string
-	if o.fl&fX != 0 {
-		f = append(f, "x flag")
-	}
-	if o.fl&^fX != 0 {
-		f = append(f, "flags")
-	}
-	if hasX(o.text, o.fl) && strings.Contains(o.text, "#") {
-		f = append(f, "comment")
-	}
-	if strings.Contains(o.text, "|") {
-		f = append(f, "top-level |")
-	}
-	if len(f) == 0 {
-		return "plain"
-	}
-	return strings.Join(f, "+")
 }
 
 func lit(o operand) string {
@@ -1570,8 +1617,8 @@ func main() {
 		Prop:  "C21",
 		Level: "exploration",
 		Rule: "every regex syntax tree with <= 4 (quick) / 5 (thorough) nodes over leaves {a b space # newline . ^ $ \\d \\D \\w \\W \\s \\S \\h \\H \\v \\V [ab] [^a] [a-c]}, " +
-			"groups ( ) (?i: ) (?x: ) (?-i: ), |, concatenation, quantifiers * + ? {1,2}, printed to text (distinct texts only); plus L(?G:M)R for 20 scoped flag specs G; " +
-			"plus every character class of 1-2 elements over {a # space a-c 1 é \\d..\\V}, negated or not, in 7 contexts; each x 16 (quick) / all 64 (thorough) flag sets x " +
+			"groups ( ) (?i: ) (?x: ) (?-i: ), |, concatenation, quantifiers * + ? {1,2}, printed to text (distinct texts only); plus L(?G:M)R for 20 scoped flag specs G (M one leaf; thorough also M of 2 nodes); " +
+			"plus every character class of 1-2 elements over {a # space a-c 1 é \\d..\\V}, negated or not, in 7 contexts; each x 16 chosen flag sets (quick) / all 64 (thorough; 5-node trees and 2-node scoped bodies meet the 16 chosen sets) x " +
 			"all subjects of length <= 3 over {a b A é 1 space newline # _} and length <= 2 with {arabic digit, NBSP, U+2028} added; plus Regex#+ over all ordered pairs of 252 (pattern, flags) operands and Regex#* for n in 0..3. " +
 			"Oracle: compile error, or the same verdict as the reference matcher for every subject. Non-trivial = (pattern, flags) whose reference language on the subject set is neither empty nor everything",
 		Assume: []string{
@@ -1580,6 +1627,7 @@ func main() {
 			"Go's regexp is correct on the ASCII subset (used only to validate the reference matcher itself)",
 		},
 		Setup: func(c *engine.Ctx) {
+			runtime.GOMAXPROCS(2) // 16 worker processes: keep the Go runtime of each one small
 			elkrun.Init()
 			initSubjects()
 		},
